@@ -24,9 +24,16 @@ def body(c):
         "72 two-port functions, the 6 n-port functions n = 1..6, 9 + 3 Zin "
         "functions, each x {separate, aliased buffers} x {equal real, unequal "
         "real, unequal complex z0}; round trips; chains X->Y->Z vs X->Z; "
-        "n-port vs two-port at n = 2); %d seeded draws per case: a random "
-        "n-port, its matrix of the input type built from the defining "
-        "relations, the libvna call, then n independent port states of the "
+        "n-port vs two-port at n = 2; plus every conversion and Zin function "
+        "on the structured networks of its regular set -- series element, "
+        "shunt element, through, decoupled ports, short / open pair, "
+        "floating n-port, common-node n-port -- i.e. networks for which some "
+        "OTHER representation does not exist, existence decided in the spec "
+        "by exact integer determinants of {constraints, independent tuple}); "
+        "%d seeded draws per case: a random "
+        "n-port (or a structured network with random passive element "
+        "values), its matrix of the input type built from the defining "
+        "relations / the network's constraints, the libvna call, then n independent port states of the "
         "input network must satisfy the output type's defining relation "
         "(scale-free residual <= 1e-9 x condition estimate, cases with "
         "condition estimate > 1e4 are not decided).  evaluations = decided "
